@@ -35,7 +35,7 @@ META = dict(
         "lossy factor != 0 (c*sigma*eta0*inv_eps != 2), conductivities >= 0, inverse material entries > 0",
         "full-tensor lossless materials: concrete seeded symmetric positive definite tensors per cell",
     ],
-    outside="grids larger than the listed shapes; HardConstantAmplitudePlanceSource, ModePlaneSource; dispersive media; PML; float round-off",
+    outside="grids larger than the listed shapes; HardConstantAmplitudePlanceSource (sets the field, not reversible by design); the mode solver itself (runs concretely at placement); dispersive media; PML; float round-off",
     bounds=dict(quick=dict(shapes=[(3, 3, 3), (4, 3, 2)], steps="every t < 4"), thorough=dict(shapes=[(3, 3, 3), (4, 3, 2), (5, 4, 3)], steps="every t < 8")),
     timeout_ms=dict(quick=60000, thorough=300000),
 )
@@ -78,6 +78,9 @@ def cases(tier, seed):
                         if m == "full" and tier == "quick":
                             T = min(T, 2)
                         out.append(dict(name=f"{'x'.join(map(str, shape))}-{b}-{m}-{ss}-{grid}", shape=shape, bounds=b, mat=m, src=ss, grid=grid, T=T))
+    # a mode source over a lossy core (complex mode profile, solved concretely by tidy3d/scipy at placement; the injection and
+    # its inverse are what is encoded), default and switched
+    out.append(dict(name="5x5x4-periodic-modecore-mode-uniform", shape=(5, 5, 4), bounds="periodic", mat="modecore", src="mode", grid="uniform", T=2 if tier == "quick" else 4))
     return out
 
 
@@ -90,6 +93,8 @@ def _material(m):
         return fdtdx.Material(permittivity=1.5, permeability=(1.2, 1.1, 2.0), magnetic_conductivity=0.7, electric_conductivity=0.3)
     if m == "iso_lossy":
         return fdtdx.Material(permittivity=1.5, permeability=1.3, magnetic_conductivity=0.7, electric_conductivity=0.3)
+    if m == "modecore":
+        return fdtdx.Material(permittivity=1.0)
     if m == "full":
         return fdtdx.Material(permittivity=((2.0, 0.3, 0.1), (0.3, 2.5, 0.2), (0.1, 0.2, 3.0)))
     raise ValueError(m)
@@ -101,6 +106,13 @@ def _sources(kind, shape, T):
 
     if kind == "none":
         return []
+    if kind == "mode":
+        from ..scenes import GridAt, material_box
+        core = material_box("core", (1, 1, 0), (shape[0] - 2, shape[1] - 2, shape[2]), fdtdx.Material(permittivity=6.0, electric_conductivity=2.0))
+        m1 = fdtdx.ModePlaneSource(name="m_default", partial_grid_shape=(None, None, 1), wave_character=fdtdx.WaveCharacter(wavelength=6e-7), direction="+", mode_index=0)
+        m2 = fdtdx.ModePlaneSource(name="m_switched", partial_grid_shape=(None, None, 1), wave_character=fdtdx.WaveCharacter(wavelength=6e-7), direction="-", mode_index=0,
+                                   switch=OnOffSwitch(fixed_on_time_steps=sorted({0, T - 1})))
+        return [core, (m1, [GridAt(m1, (2,), (1,))]), (m2, [GridAt(m2, (2,), (shape[2] - 1,))])]
     mid = tuple(s // 2 for s in shape)
     if kind == "dipoles":
         return [
